@@ -52,7 +52,7 @@ for p in props:
 claimed = [c['property_id'] for c in checks]
 m = {"version": 1, "setup_cmd": "./setup.sh",
      "hooks": {"guard": "jordanbray_chess_verif",
-               "enable": "no hooks: everything is reached through the public API and the build's OUT_DIR (raw Board.hash through impl Hash with a capturing Hasher)",
+               "enable": "no hooks: everything is reached through the public API and the build's OUT_DIR (the private Board.hash field of the model state is derived from the observable get_hash(), Refine/Dump.lean)",
                "baseline_off_cmd": "cd /repo && cargo test --workspace --no-fail-fast --offline",
                "source_commits": [], "add_only": True},
      "engines": [{"name": "lean", "path": "lean/", "serves_properties": claimed,
